@@ -16,7 +16,7 @@ CLAIMED = {
    "Custom DelegateActor implementations and application code are opaque (treated as the effects of their role). CFG paths over-approximate feasible ones. Trusted: go/types, go/ssa, the effect table and fact evaluator of the checker.", "DESIGN.md §4 C07"),
  "C10": ("other", "ResponseWriter typestate (may-analysis of write histories) combined with SSA must-facts; status table with sibling agreement",
    "Decides the path clauses on all SSA paths of the five entry points and AuthorizePostInbox: not-handled returns are silent, error returns have no library write, nil returns have exactly one WriteHeader (or none on the denied edge of a gate that was handed the writer), every WriteHeader carries the documented constant for the condition that governs it and every documented row exists, the 201's Location is the id of the activity deliver returned, and the 400 sentinels are produced before any effect.",
-   "What the application's gate writes on denial is outside the library; ResponseWriter faults are outside the fault model; 'usable id' for non-IRI ids is a value-level clause not decided. Trusted: go/types, go/ssa, checker transfer functions.", "DESIGN.md §4 C10"),
+   "What the application's gate writes on denial is outside the library; ResponseWriter faults are outside the fault model; which strings xsd:anyURI accepts as an IRI is the id codec's (C12-R5). Trusted: go/types, go/ssa, checker transfer functions.", "DESIGN.md §4 C10"),
  "C13": ("proof", "abstract evaluation of the generated predicate tables (go/ast + go/types) against an independently computed ontology closure",
    "The whole statement is decided for the shipped vocabularies: the exact denotation of every Extends / IsExtendedBy / IsOrExtends / IsDisjointWith predicate (63 types x 4 families) is computed from source by an evaluator that accepts six statement forms and fails on anything else, and compared for all 63x63 ordered pairs with the transitive closure computed by the checker's own reader from the four JSON-LD ontologies; converse, symmetry and irreflexivity are checked on the extracted relations, and every exported wrapper and IsExtending method is resolved to the predicate it delegates to.",
    "Trusted base: go/parser + go/types, the checker's JSON-LD reader and closure code, the evaluator's accepted forms, and that GetTypeName() returns the literal extracted (checked equal to the ontology name). Only the four shipped vocabularies are covered; the generator is not analysed.", "DESIGN.md §4 C13"),
@@ -37,7 +37,7 @@ CLAIMED = {
    "Exact stored values are not decided; Database.Owns is the application's. Trusted: go/types, go/ssa, go/ast, checker engines E1/E2/E4/E9.", "DESIGN.md §4 C04"),
  "C16": ("other", "SSA must-facts + value flow + store/dominance rules on the undeliverable side channel + in-place-scan discipline + error discipline",
    "Decides necessary structural conditions on all paths of the social default callbacks: sentinel before any effect; undeliverable is recorded (true only by block) before anything can return and PostOutbox returns its negation while still storing/listing; toTombstone copies id/formerType/deleted always and published/updated independently; deleteFn replaces the stored object by that Tombstone under its lock; Add/Remove write only owned targets with the documented mutator and Remove's scan examines every element without skipping; Like prepends every object id to the outbox actor's liked collection; Update writes ToType(stored ⊕ supplied) back; wrapped callback last.",
-   "Exact member sets after Update and JSON-null deletion are value-level and not decided. Trusted: go/types, go/ssa, go/ast, checker engines E1/E2/E4/E9.", "DESIGN.md §4 C16"),
+   "Exact member sets after Update are value-level and not decided (the provenance of the deleted keys is, C16-R8). Trusted: go/types, go/ssa, go/ast, checker engines E1/E2/E4/E9.", "DESIGN.md §4 C16"),
  "C20": ("other", "SSA value identity (same slice digested and written) + dominance order + def-chain rules for the header derivation + in-place-filter discipline",
    "Decides on all paths of GetInbox/GetOutbox/handler that the bytes written are the very slice passed to addResponseHeaders, built as json.Marshal(streams.Serialize(x)) from the value the application supplied, after dedupe (inbox only) / recursive scrub (handler), with headers ≺ status ≺ body; that addResponseHeaders derives Content-Type, Date (clock.Now().UTC().Format(RFC 7231)+GMT) and Digest (SHA-256= base64.Std(sha256.Sum256(param))) through exactly those callees; that dedupeOrderedItems removes exactly later occurrences and examines every element; missing value ⇒ ErrNotFound with nothing written.",
    "Serialisation fidelity itself is C01's. Trusted: go/types, go/ssa, checker engines E1/E2/E4.", "DESIGN.md §4 C20"),
@@ -70,6 +70,36 @@ NOT_YET = {}
 ALL = ["C%02d" % i for i in range(1, 21)]
 NA_REASON = "rule designed (DESIGN.md §4), checker for it not built yet; not claimed on a weaker proxy"
 
+# Additions of the second/third adversarial rounds (DESIGN.md §10): appended to the claimed text / technique.
+ADD_TEXT = {
+ "C01": " Also decided: the rdf:langString reader and streams.Serialize record every entry of the map they range over; no constant vocabulary flows into @context; the @context object is read in the orientation it is written and aliased members are written under the spelling they are read under; the duration reader applies the sign on every success return and the anyURI reader rejects only non-strings, unparsable strings and strings without a scheme.",
+ "C02": " Also decided: every way round the loops of resolveActors and of the stored-inbox lookup passes through the dereference / InboxForActor (no recipient is skipped untried), and no slice on the delivery path is written through while it is ranged over.",
+ "C03": " Also decided: nothing returns from either strip function before bto, bcc and object were examined, and the type tests guarding them admit every vocabulary type that has the member.",
+ "C05": " Also decided: attribution is decided per object (the set consulted is selected by the index of the object appended to), and no method of the actor types writes a field of its receiver (nothing is remembered across requests).",
+ "C06": " Also decided: GetId yields href only where the id property is nil; every refusal of the verification steps is feasible (no dead check).",
+ "C07": " Also decided: the protocol flags each constructor sets are the ones its name promises (followed through delegating constructors).",
+ "C08": " Also decided: a request releases only locks it holds, and request handlers keep no state in their receiver.",
+ "C10": " Also decided: the delegate receives the inbox activity only where its id property is non-nil and holds an IRI; every other outcome of that test is answered 400.",
+ "C11": " Also decided: every way round an in-place filter loop removes an element or advances the index; the reviewed reason for the duration regexp's submatch indices is re-verified by parsing the pattern.",
+ "C12": " Also decided (shared with C01): the duration reader's sign step and the anyURI reader's rejection conditions.",
+ "C13": " When a predicate body is not of a listed statement form its denotation is read off the SSA form with the branch facts (set of constants whose comparison with the type name is known true at a `return true`; no other condition may decide the result).",
+ "C14": " Also decided: Apply reaches the delegate only where the predicate returned (true, nil); the constructors store their arguments unchanged. When a resolver body is not of the listed statement forms the dispatch relation and the sentinel discipline are read off the SSA form with the branch facts.",
+ "C16": " Also decided: the keys an Update deletes are keys of the idx'th raw value of the activity's object whose value is null, the raw map being the decoded request body handed on unchanged; the Tombstone is built only from the stored value.",
+ "C17": " Also decided: 'nothing owned' is answered only at the depth limit or after every value was fetched and searched; no mutator is reachable from InboxForwarding.",
+ "C18": " Also decided: whole-element overwrites through the element pointer are tracked; helper methods are interpreted at their call sites.",
+ "C19": " Also decided: the failure drain stops only when the channel is known empty.",
+ "C20": " Also decided: each of the three headers is set on every path; the recursive scrub's guards admit every vocabulary type.",
+}
+ADD_TECH = {
+ "C01": " + SSA lap analysis of range loops + value-flow provenance of @context + reader/writer orientation agreement",
+ "C02": " + lap-must-pass-through analysis + slice write/alias summaries",
+ "C10": " + gate facts on the id property's IRI predicate",
+ "C13": " + SSA/must-facts reading of predicate denotations as fallback",
+ "C14": " + SSA/must-facts reading of the dispatch relation and sentinel discipline (fallback for unlisted statement forms)",
+ "C16": " + provenance walk of the raw request map across calls",
+ "C19": " + loop-exit condition classification on the error channel",
+}
+
 def main():
     checks = []
     for pid in ALL:
@@ -83,9 +113,9 @@ def main():
             "evidence_file": "/verif/evidence/%s.json" % pid,
             "replay_cmd_template": "./run.sh %s --explain {path}" % pid,
             "engine": "verifchk",
-            "level_claimed": {"category": cat, "text": text, "design_ref": ref},
+            "level_claimed": {"category": cat, "text": text + ADD_TEXT.get(pid, ""), "design_ref": ref + (" and §10" if pid in ADD_TEXT else "")},
             "level_note": note,
-            "technique": "static analysis: " + tech,
+            "technique": "static analysis: " + tech + ADD_TECH.get(pid, ""),
         })
     na = [{"property_id": p, "reason": NOT_YET.get(p, NA_REASON)} for p in ALL if p not in CLAIMED]
     m = {
